@@ -883,6 +883,14 @@ impl CodegenContext {
                                         Some(as_) => &as_.path.data,
                                         None => original_path,
                                     };
+                                    // 'super' leads out of the imported file again: importing it would make a scope its own
+                                    // child, and whatever walks the symbol table afterwards would never come back
+                                    if original_path.contains_super() || target_path.contains_super() {
+                                        return Err(Diagnostic::error()
+                                            .with_message("'super' cannot be imported, or be the name of an import")
+                                            .with_labels(vec![arg.span.to_label()])
+                                            .into());
+                                    }
                                     match self.symbols.try_index(import_nx, original_path) {
                                         Some(original_nx) => {
                                             to_export.push((
